@@ -76,6 +76,7 @@ struct Side {
     addrs: Vec<[u8; 16]>,
     udp: Vec<(SocketHandle, u16, u8)>,
     icmp: SocketHandle,
+    icmp_hop: u8,
     ident: u16,
     tcp: SocketHandle,
     groups: Vec<[u8; 16]>,
@@ -256,8 +257,20 @@ fn build_side(tape: &mut Tape, idx: usize, desc: &mut String) -> Side {
         icmp::PacketBuffer::new(vec![icmp::PacketMetadata::EMPTY; 8], vec![0u8; 8192]),
     );
     ic.bind(icmp::Endpoint::Ident(ident)).unwrap();
+    // hop limits that IPHC cannot compress (anything but 1, 64, 255) travel in-line, next to an in-line
+    // next-header octet for ICMPv6 and TCP
+    let icmp_hop = match tape.draw(4) {
+        0 => Some(2 + tape.draw(250) as u8),
+        1 => Some(*tape.pick(&[1u8, 255, 63, 65])),
+        _ => None,
+    };
+    ic.set_hop_limit(icmp_hop);
     let icmp_h = node.sockets.add(ic);
-    let tcp_h = node.sockets.add(tcp::Socket::new(tcp::SocketBuffer::new(vec![0; 2048]), tcp::SocketBuffer::new(vec![0; 2048])));
+    let mut ts = tcp::Socket::new(tcp::SocketBuffer::new(vec![0; 2048]), tcp::SocketBuffer::new(vec![0; 2048]));
+    if tape.draw(3) == 0 {
+        ts.set_hop_limit(Some(2 + tape.draw(250) as u8));
+    }
+    let tcp_h = node.sockets.add(ts);
     desc.push_str(&format!(
         " {}: mtu={} ll={:?} addrs=[{}] udp-ports={:?} ident={:#x} ctx={}",
         cfg.name,
@@ -274,6 +287,7 @@ fn build_side(tape: &mut Tape, idx: usize, desc: &mut String) -> Side {
         addrs,
         udp: udps,
         icmp: icmp_h,
+        icmp_hop: icmp_hop.unwrap_or(64),
         ident,
         tcp: tcp_h,
         groups: vec![],
@@ -867,7 +881,7 @@ fn app_op(c: &mut C) -> Result<(), Violation> {
             let oversize = 40 + 8 + n > FRAG_BUF;
             let hopeless = 3 + 8 + n > FRAG_BUF;
             let h = c.s[i].icmp;
-            let hop = 64;
+            let hop = c.s[i].icmp_hop;
             let so = c.s[i].node.sockets.get_mut::<icmp::Socket>(h);
             let r = guard("icmp::send_slice", || so.send_slice(&msg, v6(&dst)))?;
             if r.is_ok() {
